@@ -1,6 +1,6 @@
 SPECIFICATION Spec
 CONSTANTS
-  Family = "dberr"
+  Families = {"dberr"}
   Tier = "quick"
 VIEW View
 INVARIANTS OneResultEach Sound Complete SoundOnScenario OnlyNeeded InOrder NothingWithoutKeys StoredFetched NothingInvented TopErrOnlyDB ClassSane Emit
